@@ -37,7 +37,9 @@ pub fn init() {
                 .map(|l| format!(" @{}:{}", l.file(), l.line()))
                 .unwrap_or_default();
             LAST_PANIC.with(|p| *p.borrow_mut() = Some(format!("{}{}", msg, loc)));
-            if !QUIET.load(Ordering::Relaxed) {
+            // a panic outside guarded code is a defect of the harness itself: show it
+            let in_guarded = ST_DETECT.with(|d| *d.borrow());
+            if !QUIET.load(Ordering::Relaxed) || !in_guarded {
                 default(info);
             }
         }));
